@@ -71,7 +71,10 @@ fn one<T: RelationToQueryTranslator + QueryToRelationTranslator + Copy>(cx: &mut
     if a.iter().map(|x| &x.0).collect::<Vec<_>>() != b.iter().map(|x| &x.0).collect::<Vec<_>>() {
         cx.st.violation(json!({"kind":"read-back-column-names-differ","dialect":name,"class":cx.class,"query":cx.sql,"schema":a,"read_back":b}));
     } else if a != b {
-        cx.st.violation(json!({"kind":"read-back-column-types-differ","dialect":name,"class":cx.class,"query":cx.sql,"differ":a.iter().zip(b.iter()).filter(|(x, y)| x != y).take(3).collect::<Vec<_>>()}));
+        let pairs: Vec<(&(String, String), &(String, String))> = a.iter().zip(b.iter()).filter(|(x, y)| x != y).collect();
+        let boolish = |t: &str| t.starts_with("bool") || t.starts_with("option(bool");
+        let change = if pairs.iter().all(|(x, y)| boolish(&x.1) && !boolish(&y.1)) { "boolean-to-number" } else { "other" };
+        cx.st.violation(json!({"kind":"read-back-column-types-differ","dialect":name,"class":cx.class,"construct":change,"query":cx.sql,"differ":pairs.iter().take(3).collect::<Vec<_>>()}));
     }
 }
 
@@ -122,7 +125,11 @@ pub fn run(outdir: &str, seed: u64, thorough: bool) -> serde_json::Value {
         } else {
             let depth = r.range(0, 2) as u32;
             let k = attempts - WEIRD.len() - dp_targeted.len();
-            let frag_targeted = ["SELECT VARIANCE(t.amount) AS v, AVG(t.amount) AS m FROM orders AS t", "SELECT t.status AS k, STDDEV(t.amount) AS s FROM orders AS t GROUP BY t.status"];
+            let frag_targeted = ["SELECT VARIANCE(t.amount) AS v, AVG(t.amount) AS m FROM orders AS t", "SELECT t.status AS k, STDDEV(t.amount) AS s FROM orders AS t GROUP BY t.status",
+                // expression shapes whose text could collide with lexical conventions of a dialect (comments, operators, quotes)
+                "SELECT -(-t.age) AS x, - t.income AS y, t.age - (-5) AS z FROM users AS t", "SELECT NOT (NOT (t.age > 30)) AS x, -(-(-t.age)) AS y FROM users AS t WHERE -(-t.age) > 20",
+                "SELECT '--' AS a, '/* x */' AS b, t.city AS c FROM users AS t", "SELECT t.age * -1 AS x, t.age / 2 AS y, t.age % 7 AS z FROM users AS t",
+                "SELECT CASE WHEN t.age > 30 THEN -(-t.income) ELSE - t.income END AS x FROM users AS t"];
             let sql = if k >= 1 && k <= frag_targeted.len() { frag_targeted[k - 1].to_string() } else {
                 let (q0, cols) = { let mut g = QGen::new(&mut r, &w.specs); g.query(depth) };
                 let is_set = q0.contains(" UNION ") || q0.contains(" INTERSECT ") || q0.contains(" EXCEPT ");
